@@ -1,5 +1,7 @@
 //! Reads a frame file (one frame per line: hex TAB anything) and prints, per frame, the Debug rendering of the
-//! decoded message as this single-feature build of rtcm-rs sees it.
+//! decoded message as this single-feature build of rtcm-rs sees it. Then the same frames are run through the stream
+//! API of this build (all frames concatenated: once through MsgFrameIter, once through the documented caller loop with
+//! small chunks) and two verdict lines say whether the stream passes deliver the same renderings in the same order.
 use rtcm_rs::prelude::*;
 use std::io::{BufRead, Write};
 
@@ -7,11 +9,22 @@ fn unhex(s: &str) -> Vec<u8> {
     (0..s.len() / 2).filter_map(|i| u8::from_str_radix(&s[2 * i..2 * i + 2], 16).ok()).collect()
 }
 
+fn verdict(name: &str, got: &[String], want: &[String]) -> String {
+    if got == want {
+        return format!("{} same {}", name, got.len());
+    }
+    let i = got.iter().zip(want.iter()).position(|(a, b)| a != b).unwrap_or(got.len().min(want.len()));
+    let cut = |s: Option<&String>| s.map(|s| s.chars().take(100).collect::<String>()).unwrap_or_else(|| "<nothing>".to_string());
+    format!("{} differs: {} items instead of {}; item {}: `{}` instead of `{}`", name, got.len(), want.len(), i, cut(got.get(i)), cut(want.get(i)))
+}
+
 fn main() {
     let path = std::env::args().nth(1).expect("frame file");
     let f = std::fs::File::open(path).expect("open frame file");
     let out = std::io::stdout();
     let mut out = std::io::BufWriter::new(out.lock());
+    let mut per_frame: Vec<String> = Vec::new();
+    let mut stream: Vec<u8> = Vec::new();
     for line in std::io::BufReader::new(f).lines() {
         let line = line.unwrap();
         let hex = line.split('\t').next().unwrap_or("");
@@ -19,9 +32,43 @@ fn main() {
         match MessageFrame::new(&bytes) {
             Ok(mf) => {
                 let m = mf.get_message();
-                writeln!(out, "{:?}", m).unwrap();
+                let s = format!("{:?}", m);
+                writeln!(out, "{}", s).unwrap();
+                per_frame.push(s);
+                stream.extend_from_slice(&bytes);
             }
             Err(e) => writeln!(out, "FRAME-ERROR {:?}", e).unwrap(),
         }
     }
+    // one shot through the iterator
+    let mut it = MsgFrameIter::new(&stream);
+    let oneshot: Vec<String> = (&mut it).map(|mf| format!("{:?}", mf.get_message())).collect();
+    writeln!(out, "{}", verdict("STREAM-ONESHOT", &oneshot, &per_frame)).unwrap();
+    // the caller loop: append a chunk, take frames until none, drop what was consumed
+    let sizes = [5usize, 1, 9, 64, 3, 700, 2, 17, 6, 1200];
+    let mut chunked: Vec<String> = Vec::new();
+    let mut buf: Vec<u8> = Vec::new();
+    let mut pos = 0usize;
+    let mut k = 0usize;
+    while pos < stream.len() {
+        let n = sizes[k % sizes.len()].min(stream.len() - pos);
+        k += 1;
+        buf.extend_from_slice(&stream[pos..pos + n]);
+        pos += n;
+        loop {
+            let (consumed, frame) = next_msg_frame(&buf);
+            let had = match frame {
+                Some(mf) => {
+                    chunked.push(format!("{:?}", mf.get_message()));
+                    true
+                }
+                None => false,
+            };
+            buf.drain(..consumed.min(buf.len()));
+            if !had {
+                break;
+            }
+        }
+    }
+    writeln!(out, "{}", verdict("STREAM-CHUNKED", &chunked, &per_frame)).unwrap();
 }
